@@ -17,6 +17,10 @@ THEOREMS = [P + t for t in (
     "graph_children_perm", "rowLaw_of_roundTrips", "rowLaw_jsonfield",
     "routes_ok", "rows_ok", "set_get_every_route", "unset_get_every_route", "unset_identity_every_route",
     "history_last_op_decides", "attr_unset_image_type_counterexample",
+    # several handles of one element; the model graph read from every element of a written tree
+    "handles_share_one_store", "history_last_op_decides_any_handle",
+    "graph_roundtrip_every_element_partial", "graph_roundtrip_every_element_component_partial",
+    "graph_at_nested_dedicated_counterexample",
     # the codec hypothesis discharged for the value model that carries C03's and C12's codec models
     "rich_rowLaw", "fieldLaw_rich", "typed_wf", "rich_rows_ok", "fieldLaw_discharged", "props_roundtrip_typed_partial",
     "dict_roundtrip_typed_partial", "graph_roundtrip_typed_partial", "graph_roundtrip_component_typed_partial")]
@@ -37,7 +41,14 @@ TRUSTED_BASE = [
     "the set order of neighbours is not (children are compared up to order)",
     "CPython json.dumps/json.loads in JSONSliver (string-valued dictionaries)",
     "oracle only (no Lean model): update_labels / update_capacities / rename(), properties handed to the constructors (add_node(**kw) ...), "
-    "the deep-sliver reader element.get_sliver()",
+    "element.get_sliver() on the live topology (its graph-level counterpart, build_deep_*_sliver started at every element of a written "
+    "tree, is modelled: graphAt / graph_roundtrip_every_element_partial, correspondence op `grapha`)",
+    "handles: the model gives a handle of an element one piece of state, the name it caches (runHandles / the driver's per-handle name array); "
+    "that the python objects handed out by the lookup views hold nothing else that a property read depends on is what the correspondence "
+    "checks (histories alternating over three handles, every handle reading after every step)",
+    "the converters are pure functions in the Lean model by construction; that the python ones neither alter their argument nor answer "
+    "differently the second time is checked by the oracle (check_inputs) and by the `dict` correspondence op, which converts one dictionary "
+    "object twice and reports the second result and the dictionary as it is afterwards",
 ]
 ASSUMPTIONS = [
     "identity-encoded properties hold str values, node_map holds strings without characters that json escapes, management_ip is in canonical form",
@@ -46,7 +57,10 @@ ASSUMPTIONS = [
     "sibling children have distinct names (they live in a dict keyed by name); node ids are distinct within a tree (a taken id is exercised "
     "in the correspondence only: add_node rejects it)",
     "sub-interfaces, for the graph path, are SubInterface-typed children of a DedicatedPort interface (what Interface.add_child_interface creates); arbitrary interface nesting is exercised through the dictionary / JSON forms only",
-    "element.name is the handle's cached name: it is compared after assignments to the attribute and after rename(), not after set_property('name', v)",
+    "element.name is the handle's cached name: it is compared after assignments to the attribute and after rename(), not after set_property('name', v), "
+    "and only on the handle the assignment went through",
+    "graph read from an inner element: the children of an interface are not themselves DedicatedPorts (SubsPlain; "
+    "graph_at_nested_dedicated_counterexample shows a DedicatedPort nested in a DedicatedPort is rebuilt with its parent as a child)",
 ]
 RULE = ("sliver trees (depth <= 4, <= 12 elements) with a random subset of every class's list_properties() set to values from a per-type pool "
         "(adversarial strings, every enum member, codec objects), through props / deep dict / JSONSliver / NetworkX graph (also below a present / "
@@ -55,7 +69,12 @@ RULE = ("sliver trees (depth <= 4, <= 12 elements) with a random subset of every
         "every settable name as a *history* v1 -> v2 -> unset -> v3 -> v1 -> unset -> v2 -> unset -> unset over three values (falsy ones "
         "included: False, '', (), empty objects, JSON 0 / \"\" / [] / null) in which every set route (set_property, set_properties, attribute) "
         "and unset route (unset_property, set_property(None), attribute = None) is taken and both readers follow every step; several keywords "
-        "in one set_properties; constructor keywords; non-trivial = depth >= 2 or >= 3 properties set (trees), every element history; distinct by canonical JSON of the case")
+        "in one set_properties; constructor keywords; every history runs over three handles of the element (the object the constructing call "
+        "returned, one from a lookup view - topo.nodes[..], node.components[..], interface_list, ... - and one from the constructor on the "
+        "existing id), writes rotating over them and every handle reading after every step; deterministic chain trees through every nesting "
+        "position (node/component/service/DedicatedPort/SubInterface and its suffixes, with siblings) and every tree with children: written "
+        "once, the graph reader started at every element; every converter called twice on one argument object, the argument deep-compared "
+        "before / after; get_sliver() at every position of a live topology through every handle; non-trivial = depth >= 2 or >= 3 properties set (trees), every element history; distinct by canonical JSON of the case")
 
 KINDS = ["node", "component", "service", "interface", "link"]
 SAFE = "abcdefghijklmnopqrstuvwxyzABCDEFGHIJKLMNOPQRSTUVWXYZ0123456789_-.:"
@@ -456,8 +475,40 @@ def tree_stats(t):
     return n, d, p
 
 
+def chain_case(rng, kinds, res=None, twins=True):
+    """a tree with one branch through the given kinds (outermost first), an interface below an interface being a
+    DedicatedPort with two SubInterface children; `twins`: every inner level has a sibling, so that a rebuild started
+    at an inner element has neighbours it must leave out (its parent, its siblings)"""
+    counter = [0]
+
+    def mk(i, sub=False):
+        counter[0] += 1
+        idx = counter[0]
+        k = kinds[i]
+        t = {"k": k, "id": "id-%d" % idx, "f": gen_fields(rng, k, idx, 0.2, res), "c": []}
+        if sub:
+            t["f"]["type"] = ["e", "InterfaceType", "SubInterface"]
+        elif k == "interface" and i + 1 < len(kinds):
+            t["f"]["type"] = ["e", "InterfaceType", "DedicatedPort"]
+        elif k == "interface" and t["f"].get("type") == ["e", "InterfaceType", "DedicatedPort"] and rng.random() < 0.5:
+            t["f"]["type"] = ["e", "InterfaceType", "AccessPort"]
+        if i + 1 < len(kinds):
+            for _ in range(2 if (twins or k == "interface") else 1):
+                t["c"].append(mk(i + 1, sub=(k == "interface")))
+        return t
+    return mk(0)
+
+
+CHAINS = [["node", "component", "service", "interface", "interface"], ["node", "service", "interface", "interface"],
+          ["component", "service", "interface", "interface"], ["service", "interface", "interface"], ["interface", "interface"],
+          ["node", "component", "service", "interface"], ["node", "component"], ["component", "service"]]
+
+
 def gen_cases(ctx, rng, n, res=None):
     cases = []
+    # every nesting position of every kind, sub-interfaces included (the model-graph reader is started at each of them)
+    for ch in CHAINS:
+        cases.append(chain_case(rng, ch, res, twins=len(ch) < 5 or ctx.thorough))
     # deterministic corner cases first: every kind bare, every kind with every property
     for kind in KINDS:
         cases.append(gen_tree(rng, kind, [0], 0, 0.0, res))
@@ -585,9 +636,12 @@ def canon_dict(kind, d):
 
 
 def path_dict(t):
+    """sliver -> deep dictionary -> sliver; the SAME dictionary object is converted twice and the second result (and the
+    dictionary as it is after both conversions) is what is compared: a function of its argument gives the first again"""
     r = R.get()
     s = build_sliver(t)
     d = r["G"].sliver_to_dict(s)
+    r["FROMDICT"][t["k"]](props=d)
     return d, r["FROMDICT"][t["k"]](props=d)
 
 
@@ -632,6 +686,161 @@ def path_graph(t):
             return g.build_deep_component_sliver(node_id=s.node_id)
     finally:
         g.delete_graph()
+
+
+BUILD_DEEP = {"node": "build_deep_node_sliver", "component": "build_deep_component_sliver", "service": "build_deep_ns_sliver",
+              "interface": "build_deep_interface_sliver", "link": "build_deep_link_sliver"}
+
+
+def flat_elems(t, where=None):
+    """pre-order [(subtree, kind path from the root)]"""
+    where = (where + "/" if where else "") + t["k"]
+    out = [(t, where)]
+    for c in t["c"]:
+        out += flat_elems(c, where)
+    return out
+
+
+def path_graph_all(t):
+    """the tree written once into a fresh model graph, then `build_deep_<kind>_sliver` started at EVERY element of it
+    (what `element.get_sliver()` does on a live model) -> [(subtree, kind path, rebuilt sliver | ["err", kind])];
+    raises what the writer raises"""
+    from fim.graph.networkx_property_graph import NetworkXPropertyGraph, NetworkXGraphImporter
+    r = R.get()
+    s = build_sliver(t)
+    _gid[0] += 1
+    g = NetworkXPropertyGraph(graph_id="c02-graph-%d" % _gid[0], importer=NetworkXGraphImporter())
+    try:
+        k = t["k"]
+        if k == "node":
+            g.add_network_node_sliver(sliver=s)
+        elif k == "link":
+            g.add_network_link_sliver(lsliver=s, interfaces=[])
+        elif k == "service":
+            g.add_network_service_sliver(parent_node_id=None, network_service=s)
+        elif k == "interface":
+            g.add_interface_sliver(parent_node_id=None, interface=s)
+        else:
+            g.add_node(node_id="c02-parent", label=r["G"].CLASS_NetworkNode, props={"Name": "parent"})
+            g.add_component_sliver(parent_node_id="c02-parent", component=s)
+        out = []
+        for sub, where in flat_elems(t):
+            try:
+                out.append((sub, where, getattr(g, BUILD_DEEP[sub["k"]])(node_id=sub["id"])))
+            except Exception as e:
+                out.append((sub, where, ["err", err_kind(e)]))
+        return out
+    finally:
+        g.delete_graph()
+
+
+def snapshot(x):
+    """a deep, comparable picture of a converter argument: a dictionary / list as canonical JSON text, a sliver as the
+    observation of every settable property and every child (node ids included)"""
+    r = R.get()
+    if isinstance(x, r["BaseSliver"]):
+        return canon(observe(x, ocanon))
+    return json.dumps(x, sort_keys=True, default=repr)
+
+
+def check_inputs(t, res):
+    """The converters are functions of their argument: none of them may consume or alter it (the caller's dictionary,
+    the caller's sliver), and asked twice with the same object they answer the same.  Every converter of the family,
+    each called TWICE on one argument object, the argument deep-compared before / after."""
+    import copy
+    r = R.get()
+    G = r["G"]
+    kind = t["k"]
+    case = {"tree": t, "inputs": True}
+    try:
+        s = build_sliver(t)
+    except Exception as e:
+        res.count("build-failed:" + err_kind(e))
+        return
+
+    def twice(name, fn, arg, view):
+        """fn(arg) two times; -> second result (None when it raises)"""
+        before = snapshot(arg)
+        try:
+            a = fn(arg)
+            mid = snapshot(arg)
+            b = fn(arg)
+            after = snapshot(arg)
+        except Exception as e:
+            if snapshot(arg) != before:
+                res.violation("C02:input-mutated:%s:%s" % (kind, name), "%s alters the %s it is given (and then raises %s)" % (
+                    name, type(arg).__name__, err_kind(e)), case, expected=before[:300], observed=snapshot(arg)[:300])
+            return None
+        res.count("inputs:" + name)
+        if mid != before or after != before:
+            res.violation("C02:input-mutated:%s:%s" % (kind, name), "%s alters the %s it is given: converting the same object again "
+                          "(or forwarding it) no longer means the same sliver" % (name, type(arg).__name__), case,
+                          expected=before[:400], observed=(mid if mid != before else after)[:400])
+        va, vb = view(a), view(b)
+        if va != vb:
+            res.violation("C02:repeat-differs:%s:%s" % (kind, name), "%s called twice on the same %s gives two different results" % (
+                name, type(arg).__name__), case, expected=va[:400], observed=vb[:400])
+        return b
+
+    def sview(x):
+        return canon(observe(x, ocanon, sort_kids=True))
+
+    def jview(x):
+        return json.dumps(x, sort_keys=True, default=repr)
+
+    # sliver -> flat properties / deep dictionary / JSON text: the sliver stays as it is
+    props = twice("%s_sliver_to_graph_properties_dict" % kind, r["TO"][kind], s, jview)
+    d = twice("sliver_to_dict", G.sliver_to_dict, s, jview)
+    js = twice("sliver_to_json", r["JSONSliver"].sliver_to_json, s, lambda x: x)
+    # flat properties / deep dictionary -> sliver: the caller's dictionary stays as it is (same object both times)
+    if props is not None:
+        twice("%s_sliver_from_graph_properties_dict" % kind, r["FROM"][kind], props, sview)
+    if d is not None:
+        sent = json.dumps(d, sort_keys=True, default=repr)
+        back = twice("build_deep_%s_sliver_from_dict" % kind, lambda x: r["FROMDICT"][kind](props=x), d, sview)
+        # ... and the dictionary forwarded as JSON after it has been converted still describes the sliver
+        if back is not None and kind in ("node", "service") and all(isinstance(v, (str, list)) for v in d.values()):
+            try:
+                fwd = (r["JSONSliver"].node_sliver_from_json if kind == "node" else r["JSONSliver"].network_service_sliver_from_json)(json.dumps(d))
+                if sview(fwd) != sview(back) or json.dumps(d, sort_keys=True, default=repr) != sent:
+                    res.violation("C02:repeat-differs:%s:dict-forwarded-as-json" % kind, "a deep dictionary forwarded as JSON after it was "
+                                  "converted once gives a different sliver", case, expected=sview(back)[:400], observed=sview(fwd)[:400])
+            except Exception as e:
+                res.violation("C02:repeat-differs:%s:dict-forwarded-as-json:raises:%s" % (kind, err_kind(e)),
+                              "a deep dictionary forwarded as JSON after it was converted once cannot be read", case)
+    if js is not None and kind in ("node", "service"):
+        fn = r["JSONSliver"].node_sliver_from_json if kind == "node" else r["JSONSliver"].network_service_sliver_from_json
+        twice("%s_sliver_from_json" % kind, fn, js, sview)
+    # sliver -> model graph: the writer leaves the sliver as it is; the reader asked twice answers the same
+    if not t.get("wild"):
+        from fim.graph.networkx_property_graph import NetworkXPropertyGraph, NetworkXGraphImporter
+        _gid[0] += 1
+        g = NetworkXPropertyGraph(graph_id="c02-graph-%d" % _gid[0], importer=NetworkXGraphImporter())
+        try:
+            before = snapshot(s)
+            try:
+                if kind == "node":
+                    g.add_network_node_sliver(sliver=s)
+                elif kind == "link":
+                    g.add_network_link_sliver(lsliver=s, interfaces=[])
+                elif kind == "service":
+                    g.add_network_service_sliver(parent_node_id=None, network_service=s)
+                elif kind == "interface":
+                    g.add_interface_sliver(parent_node_id=None, interface=s)
+                else:
+                    g.add_node(node_id="c02-parent", label=G.CLASS_NetworkNode, props={"Name": "parent"})
+                    g.add_component_sliver(parent_node_id="c02-parent", component=s)
+                wrote = True
+            except Exception:
+                wrote = False
+            if snapshot(s) != before:
+                res.violation("C02:input-mutated:%s:add_%s_sliver" % (kind, kind), "writing a sliver into a model graph alters the sliver",
+                              case, expected=before[:400], observed=snapshot(s)[:400])
+            if wrote:
+                res.count("inputs:add+build_deep")
+                twice(BUILD_DEEP[kind], lambda i: getattr(g, BUILD_DEEP[kind])(node_id=i), s.node_id, sview)
+        finally:
+            g.delete_graph()
 
 
 PARENT_CLASS = {"component": "NetworkNode", "service": "Component", "interface": "NetworkService"}
@@ -727,6 +936,16 @@ def correspondence(ctx, res):
         reqs.append(["graph", wt])
         impl.append(["ok", {"back": b}])
         meta.append(t)
+        # 3a. the same graph, the rebuild started at every element of the tree (sub-interface, service of a component, ...)
+        if t["c"]:
+            try:
+                b = [[sub["id"], x if isinstance(x, list) else sort_tree(observe(x, wire))] for sub, _, x in path_graph_all(t)]
+            except Exception as e:
+                b = ["err", err_kind(e)]
+            reqs.append(["grapha", wt])
+            impl.append(["ok", b])
+            meta.append(t)
+            res.count("graph-at:starts", len(b) if b and b[0] != "err" else 0)
         # 3b. below a parent that is / is not in the graph (add_link looks both ends up), and with a node id taken twice
         if t["k"] in PARENT_CLASS and not t.get("wild") and rng.random() < 0.5:
             mode = rng.choice(["present", "missing"])
@@ -776,7 +995,12 @@ def correspondence(ctx, res):
             mj[1] = [canon_data(x) for x in mj[1]]
         if r[0] in ("graph", "graphx") and mj[0] == "ok" and isinstance(mj[1].get("back"), dict):
             mj[1]["back"] = sort_tree(mj[1]["back"])
-        if r[0] in ("props", "dict", "graph", "graphx"):
+        if r[0] == "grapha" and mj[0] == "ok" and isinstance(mj[1], list):
+            mj[1] = [[x[0], sort_tree(x[1]) if isinstance(x[1], dict) else x[1]] if isinstance(x, list) and len(x) == 2 and isinstance(x[0], str)
+                     and x[0] != "err" else x for x in mj[1]]
+        if r[0] == "grapha":
+            res.nontrivial.add(canon(r))
+        elif r[0] in ("props", "dict", "graph", "graphx"):
             n, d, p = tree_stats(t)
             if d >= 2 or p >= 3:
                 res.nontrivial.add(canon(r))
@@ -844,6 +1068,96 @@ PAIR_KEYS = ("image_ref", "image_type")
 GROUP_B = ["switch", "switchservice", "switchport", "facility", "facservice", "facport", "composite"]
 
 
+class Els(dict):
+    """position -> element (the handle the constructing call returned); `aux`: elements that are no position of their
+    own (the DedicatedPort above the sub-interface); `handles`: further handles of the same elements, see other_handles"""
+    def __init__(self):
+        super().__init__()
+        self.aux, self.handles = {}, {}
+
+
+HANDLE_VIEWS_TOPO = ("nodes", "facilities", "links", "network_services", "interface_list")
+HANDLE_VIEWS_ELEM = ("components", "network_services", "interface_list", "interfaces")
+
+
+HANDLE_NEAR = {"node": [("topo", "nodes")], "component": [("node", "components")], "service": [("component", "network_services")],
+               "interface": [("component", "interface_list"), ("service", "interfaces")], "link": [("topo", "links")],
+               "subinterface": [], "topservice": [("topo", "network_services")], "serviceport": [("topservice", "interface_list")],
+               "mirror": [("topo", "network_services")], "switch": [("topo", "nodes")], "switchservice": [("switch", "network_services")],
+               "switchport": [("switchservice", "interface_list"), ("switch", "interfaces")], "facility": [("topo", "facilities")],
+               "facservice": [("facility", "network_services")], "facport": [("facservice", "interface_list"), ("facility", "interfaces")],
+               "composite": []}
+
+
+def other_handles(topo, els, pos, want=2):
+    """Further handles of the element at `pos`: other python objects for the same graph node, obtained the way user code
+    obtains them - from the lookup views of the topology (`topo.nodes[..]`, `.facilities`, `.links`, `.network_services`,
+    `.interface_list`) and of the enclosing elements (`node.components[..]`, `.network_services`, `.interface_list`,
+    `.interfaces`; every access makes new objects), and by the constructor on an existing id (`check_existing=True`,
+    which is what the views call).  -> [(how, handle)], kept for the life of the topology (handles are long-lived)."""
+    if pos in els.handles:
+        return els.handles[pos]
+    from fim.user.model_element import ModelElement
+    el = els[pos]
+    found, seen = [], {id(el)}
+    # the views that list the element, nearest first (every view builds an object per listed element: the full sweep
+    # over all views of all elements is the fallback)
+    near = HANDLE_NEAR.get(pos, [])
+    owners = [(o, topo if o == "topo" else els.get(o) or els.aux.get(o), (v,)) for o, v in near]
+    owners = [x for x in owners if x[1] is not None]
+    sweep = [("topo", topo, HANDLE_VIEWS_TOPO)] + [(p, e, HANDLE_VIEWS_ELEM) for p, e in list(els.items()) + list(els.aux.items())]
+    # a fresh handle of the port above the sub-interface lists its children anew
+    if pos == "subinterface" and "component" in els:
+        try:
+            owners.append(("port'", els["component"].interface_list[1], HANDLE_VIEWS_ELEM))
+        except Exception:
+            pass
+    for group in ((owners, sweep) if pos != "composite" else (owners,)):      # (no view lists a CompositeNode)
+        for oname, owner, views in group:
+            for vn in views:
+                try:
+                    v = getattr(owner, vn)
+                    items = list(v.values()) if hasattr(v, "values") else list(v or [])
+                except Exception:
+                    continue
+                for h in items:
+                    if isinstance(h, ModelElement) and h.node_id == el.node_id and type(h) is type(el) and id(h) not in seen:
+                        seen.add(id(h))
+                        found.append(("%s.%s" % (oname, vn), h))
+        if found or want <= 1:
+            break
+    try:
+        _, props = topo.graph_model.get_node_properties(node_id=el.node_id)
+        h = type(el)(name=props.get("Name", el.name), node_id=el.node_id, topo=topo, check_existing=True)
+        found.append(("ctor", h))
+    except Exception:
+        try:
+            found.append(("ctor", type(el)(name=el.name, node_id=el.node_id, topo=topo)))
+        except Exception:
+            pass
+    # the most different routes first: one view handle and the constructor handle
+    pick = []
+    hows = set()
+    for how, h in found:
+        key = how.split(".")[0] if how != "ctor" else "ctor"
+        if key not in hows:
+            hows.add(key)
+            pick.append((how, h))
+    pick = (pick[:1] + [x for x in pick if x[0] == "ctor" and x not in pick[:1]] + pick[1:])
+    out, ids = [], set()
+    for how, h in pick + found:
+        if id(h) not in ids and len(out) < want:
+            ids.add(id(h))
+            out.append((how, h))
+    while out and len(out) < want:      # no view hands out another object for this element: the constructor again
+        try:
+            out.append(("ctor", type(el)(name=out[-1][1].name, node_id=el.node_id, topo=topo)))
+        except Exception:
+            break
+    els.handles[pos] = out
+    return out
+
+
 def make_topology(full=False, group=None):
     """a slice model with an element at every nesting position; returns (topology, {position: element}).
     `full=False`: only the five base positions.  `group`: "A" = the base positions and the ones built on them,
@@ -851,7 +1165,7 @@ def make_topology(full=False, group=None):
     from fim.user.topology import ExperimentTopology
     r = R.get()
     t = ExperimentTopology()
-    els = {}
+    els = Els()
     if group != "B":
         n1 = t.add_node(name="n1", node_id="n1-id", site="RENC", ntype=r["NodeType"].VM)
         n2 = t.add_node(name="n2", node_id="n2-id", site="UKY", ntype=r["NodeType"].VM)
@@ -868,6 +1182,7 @@ def make_topology(full=False, group=None):
         c3 = n3.add_component(name="nic3", node_id="c3-id", ctype=r["ComponentType"].SmartNIC, model="ConnectX-6")
         i3, i3b = c3.interface_list
         els["subinterface"] = i1b.add_child_interface(name="sub1", node_id="sub1-id", labels=r["Labels"](vlan="100"))
+        els.aux["port"] = i1b
         top = t.add_network_service(name="s1", node_id="s1-id", nstype=r["ServiceType"].L2Bridge, interfaces=[i2b, i3])
         els["topservice"] = top
         els["serviceport"] = top.interface_list[0]
@@ -1044,7 +1359,10 @@ def run_multi(topo, els, tr):
         fresh.set_property(k, vals[k])
         stored[k] = fresh.get_property(k)
     before = {k: elem_get(el, k) for k in kw}
-    res = call(lambda: el.set_properties(**vals))
+    # written through another handle of the element, read through the one that has read before
+    oh = other_handles(topo, els, pos, want=2)
+    wh = oh[0][1] if oh else el
+    res = call(lambda: wh.set_properties(**vals))
     ops = [["setprops", [[k, wire(stored[k])] for k in kw]]]
     replies = [res]
     got = {}
@@ -1075,7 +1393,14 @@ def run_elem_triple(topo, els, tr):
     _, props = topo.graph_model.get_node_properties(node_id=el.node_id)
     gprops = {g: x for g, x in props.items() if g in model_gprops() and isinstance(x, str)}
     has_get, has_set = attr_info(el, k)
-    name0 = wire(el.name)       # the handle's cached name (it follows assignments to the attribute, not set_property)
+    # several handles of the one element: the object the constructing call returned, and objects handed out by the lookup
+    # views / the constructor on the existing id.  Writes rotate over them, every handle reads after every step.
+    nh = int(opts.get("handles", 3))
+    extra = other_handles(topo, els, pos, want=max(0, nh - 1)) if nh > 1 else []
+    handles = [el] + [h for _, h in extra]
+    hows = ["returned"] + [how for how, _ in extra]
+    names0 = [wire(h.name) for h in handles]    # each handle's cached name (it follows assignments to the attribute, not set_property)
+    name0 = names0[0]
     descs = [d] + [x for x in (opts.get("more") or []) if usable_elem(x)]
     vals = []       # (value, what the sliver's setter stores, what is assigned to the attribute, what that stores)
     for i, dd in enumerate(descs):
@@ -1095,19 +1420,32 @@ def run_elem_triple(topo, els, tr):
         vals.append((v, stored, assigned, stored_attr))
     ops, replies, steps = [], [], []
 
-    def read():
-        g1 = elem_get(el, k)
-        ops.append(["get", k])
-        replies.append(wire(g1[1]) if g1[0] == "ok" else g1)
-        g2 = None
-        if has_get:
-            g2 = attr_get(el, k)
-            ops.append(["attrget", k])
-            replies.append(attr_reply(el, k, g2))
-        return g1, g2
+    def hx(hi):
+        return [hi] if hi else []
 
-    before = read()
-    last = [before]
+    def read():
+        gs = []
+        for hi, h in enumerate(handles):
+            g1 = elem_get(h, k)
+            ops.append(["get", k] + hx(hi))
+            replies.append(wire(g1[1]) if g1[0] == "ok" else g1)
+            g2 = None
+            if has_get:
+                g2 = attr_get(h, k)
+                ops.append(["attrget", k] + hx(hi))
+                replies.append(attr_reply(h, k, g2))
+            gs.append((g1, g2))
+        return gs
+
+    nstep = [0]
+
+    def writer():
+        nstep[0] += 1
+        return (nstep[0] - 1 + rot) % len(handles)
+
+    before_all = read()
+    before = before_all[0]
+    last = [before_all]
     sroutes = [s for s in SET_ROUTES if s != "attr" or has_set]
     uroutes = [u for u in UNSET_ROUTES if u != "attr_none" or has_set]
 
@@ -1115,25 +1453,28 @@ def run_elem_triple(topo, els, tr):
         sr = sroutes[(ri + rot) % len(sroutes)]
         v, stored, assigned, stored_attr = vals[vi % len(vals)]
         want = stored
+        w = writer()
+        el = handles[w]
         if opts.get("ctx") == "image-stored":
             # the other half of the image pair is in the graph when the route is taken
             res = call(lambda: el.set_properties(image_ref="stored-image", image_type="qcow2"))
-            ops.append(["setprops", [["image_ref", ["s", "stored-image"]], ["image_type", ["s", "qcow2"]]]])
+            ops.append(["setprops", [["image_ref", ["s", "stored-image"]], ["image_type", ["s", "qcow2"]]]] + hx(w))
             replies.append(res)
             last[0] = read()
         if sr == "set_property":
             res = call(lambda: el.set_property(k, v))
-            ops.append(["set", k, wire(stored)])
+            ops.append(["set", k, wire(stored)] + hx(w))
         elif sr == "set_properties":
             res = call(lambda: el.set_properties(**{k: v}))
-            ops.append(["setprops", [[k, wire(stored)]]])
+            ops.append(["setprops", [[k, wire(stored)]]] + hx(w))
         else:
             res = call(lambda: setattr(el, k, assigned))
-            ops.append(["attrset", k, wire(stored_attr)])
+            ops.append(["attrset", k, wire(stored_attr)] + hx(w))
             want = stored_attr
         replies.append(res)
         g = read()
-        steps.append({"op": "set", "route": sr, "res": res, "want": want, "prev": last[0], "got": g, "vi": vi % len(vals)})
+        steps.append({"op": "set", "route": sr, "res": res, "want": want, "prev": last[0][w], "got": g[w], "vi": vi % len(vals),
+                      "writer": w, "gots": g, "prevs": last[0]})
         if first:
             # the third reader: the deep sliver of the element (build_deep_*_sliver on the live topology)
             try:
@@ -1144,18 +1485,20 @@ def run_elem_triple(topo, els, tr):
 
     def do_unset(ri, op="unset"):
         ur = uroutes[(ri + rot // 3) % len(uroutes)]
+        w = writer()
+        el = handles[w]
         if ur == "unset_property":
             res = call(lambda: el.unset_property(k))
-            ops.append(["unset", k])
+            ops.append(["unset", k] + hx(w))
         elif ur == "set_property_none":
             res = call(lambda: el.set_property(k, None))
-            ops.append(["setnone", k])
+            ops.append(["setnone", k] + hx(w))
         else:
             res = call(lambda: setattr(el, k, None))
-            ops.append(["attrset", k, None])
+            ops.append(["attrset", k, None] + hx(w))
         replies.append(res)
         g = read()
-        steps.append({"op": op, "route": ur, "res": res, "prev": last[0], "got": g})
+        steps.append({"op": op, "route": ur, "res": res, "prev": last[0][w], "got": g[w], "writer": w, "gots": g, "prevs": last[0]})
         last[0] = g
 
     # the history: overwrite (v1 -> v2), unset, set after unset (v3), overwrite (-> v1), unset, set (v2), unset, unset again
@@ -1184,9 +1527,9 @@ def run_elem_triple(topo, els, tr):
                 others[k2] = err_kind(e)
     except Exception as e:
         others = {k2: err_kind(e) for k2 in settable(kind)}
-    stream = (type(el).__name__, gprops, ops, replies, name0)
+    stream = (type(el).__name__, gprops, ops, replies, name0 if len(handles) == 1 else {"names": names0})
     obs = {"pos": pos, "kind": kind, "cls": type(el).__name__, "key": k, "value": d, "opts": opts, "stored": vals[0][1],
-           "has_get": has_get, "has_set": has_set, "before": before, "steps": steps, "others": others}
+           "has_get": has_get, "has_set": has_set, "before": before, "steps": steps, "others": others, "hows": hows}
     return stream, obs
 
 
@@ -1305,6 +1648,39 @@ def check_tree(t, res, paths=ALL_PATHS):
         compare_trees(o, b, out)
         for kind, k, what, a, bb in out:
             found.setdefault((kind, k, what), {})[path] = (a, bb)
+    # the model graph read from EVERY element of the tree: each rebuild is the corresponding subtree of what was written
+    if "graph" in paths and t["c"] and not any("graph" in bp and w.startswith("raises") for (_, _, w), bp in found.items()):
+        subs = {}
+
+        def index(o):
+            subs[o["id"]] = o
+            for c in o["c"]:
+                index(c)
+        index(orig)
+        try:
+            rebuilt = path_graph_all(t)
+        except Exception as e:
+            rebuilt = []
+            res.violation("C02:roundtrip:graph-at:%s:*:raises:%s" % (t["k"], err_kind(e)), "writing the tree a second time raises", {"tree": t, "paths": ["graph"]})
+        for sub, where, back in rebuilt[1:]:        # [0] is the root, compared above
+            res.count("graph-at:" + where)
+            if isinstance(back, list):
+                res.violation("C02:roundtrip:graph-at:%s:*:raises:%s" % (where, back[1]), "build_deep_%s_sliver started at an inner element "
+                              "(%s) of a written tree raises" % (sub["k"], where), {"tree": t, "paths": ["graph"]}, observed=back[1])
+                continue
+            out = []
+            try:
+                compare_trees(subs[sub["id"]], observe(back, ocanon, sort_kids=True), out)
+            except Exception as e:
+                res.violation("C02:roundtrip:graph-at:%s:*:raises:%s" % (where, err_kind(e)), "the sliver rebuilt from an inner element (%s) "
+                              "cannot be read" % where, {"tree": t, "paths": ["graph"]})
+                continue
+            for kind, k, what, a, bb in out:
+                if (kind, k, what) in found and "graph" in found[(kind, k, what)]:
+                    continue        # the same difference already shows on the rebuild started at the root
+                res.violation("C02:roundtrip:graph-at:%s:%s:%s:%s" % (where, kind, k, what),
+                              "a %s rebuilt from the model graph starting at the element itself (%s of the written tree): %s %s" % (
+                                  sub["k"], where, k, what), {"tree": t, "paths": ["graph"]}, expected=a, observed=bb)
     for (kind, k, what), by_path in sorted(found.items()):
         ran = [p for p in paths if not (p == "props" and kind != t["k"])]
         hit = [p for p in paths if p in by_path]
@@ -1365,6 +1741,13 @@ def attr_seen(k, v):
     return ocanon(v)
 
 
+def rd_canon(g, attr_key=None):
+    """a reading (["ok", value] | ["err", kind]) in oracle-canonical form"""
+    if g[0] != "ok":
+        return ["err", g[1]]
+    return ["ok", attr_seen(attr_key, g[1]) if attr_key else ocanon(g[1])]
+
+
 def check_elem(case, res):
     """the property itself on elements: after a set through any route both readers return an equal value; after an
     unset through any route both read absent; a rejected operation changes nothing; nothing else becomes unreadable.
@@ -1390,6 +1773,19 @@ def check_elem(case, res):
             g1, g2 = st["got"]
             p1, p2 = st["prev"]
             route = st["route"]
+            # every other handle of the element reads what the writing handle reads (value or error alike); the cached
+            # `name` attribute is the one piece of state a handle owns
+            fam_ = "set_get" if st["op"] == "set" else "unset_get"
+            for hi, (h1, h2) in enumerate(st.get("gots") or []):
+                if hi == st.get("writer"):
+                    continue
+                how = (o.get("hows") or [])[hi].split(".")[-1] if hi < len(o.get("hows") or []) else "other"
+                if canon(rd_canon(h1)) != canon(rd_canon(g1)):
+                    add(fam_, "other-handle-differs", route, rd_canon(g1), rd_canon(h1))
+                    res.count("handle-differs:" + how)
+                elif k != "name" and g2 is not None and h2 is not None and canon(rd_canon(h2, k)) != canon(rd_canon(g2, k)):
+                    add(fam_, "other-handle-attr-differs", route, rd_canon(g2, k), rd_canon(h2, k))
+                    res.count("handle-differs:" + how)
             if st["op"] == "set":
                 want = st["want"]
                 # a set route counts where the write is visible (the element held something else)
@@ -1568,12 +1964,15 @@ def check_side_routes(res):
             cls = ELEM_CLASS[POS_KIND[pos]]
             c = {"side": pos}
             res.evaluations += 4
+            # written through another handle of the element (where there is one), read through the one that read before
+            oh = [h for _, h in other_handles(topo, els, pos, want=2)]
+            wh = oh[0] if oh else el
             for what, cl, kws in (("labels", "Labels", [{"vlan": "5"}, {"local_name": "q", "vlan": "6"}]),
                                   ("capacities", "Capacities", [{"core": 3}, {"ram": 0, "disk": 7}])):
                 for kw in kws:
                     before = getattr(el, what)
                     try:
-                        getattr(el, "update_" + what)(**kw)
+                        getattr(wh, "update_" + what)(**kw)
                         after = getattr(el, what)
                     except Exception as e:
                         res.violation("C02:set_get:%s:%s:update-raises:%s" % (cls, what, err_kind(e)),
@@ -1590,9 +1989,9 @@ def check_side_routes(res):
             new = "renamed-" + pos
             try:
                 el.rename(new)
-                if el.name != new or el.get_property("name") != new:
+                if el.name != new or el.get_property("name") != new or any(h.get_property("name") != new for h in oh):
                     res.violation("C02:set_get:%s:name:changed:routes=rename" % cls, "rename on a %s (position %s) is not read back" % (
-                        type(el).__name__, pos), c, expected=new, observed=[el.name, el.get_property("name")])
+                        type(el).__name__, pos), c, expected=new, observed=[el.name, el.get_property("name")] + [h.get_property("name") for h in oh])
             except Exception as e:
                 res.violation("C02:set_get:%s:name:rename-raises:%s" % (cls, err_kind(e)), "rename raises", c)
             # read-only attributes
@@ -1609,6 +2008,62 @@ def check_side_routes(res):
                         res.violation("C02:set_get:%s:%s:readonly-changed" % (cls, a), "refused assignment changed the value", c)
     finally:
         topo.graph_model.delete_graph()
+
+
+def kid_names(sl):
+    return sorted((kind_of(c), c.get_name()) for c in sliver_kids(sl))
+
+
+def check_elem_slivers(res):
+    """`element.get_sliver()` (the model graph read from that element) at every position of a live topology, through
+    every handle: the children it lists are the ones the element was built with - by construction of make_topology, not
+    by asking the graph again - and every settable property equals what the element's get_property answers."""
+    for group in ("A", "B"):
+        topo, els = make_topology(full=True, group=group)
+        try:
+            expect = {}
+            if group == "A":
+                n1, c1, svc = els["node"], els["component"], els["service"]
+                ports = sorted(("interface", i.name) for i in c1.interface_list)
+                expect = {"node": [("component", "nic1")], "component": [("service", svc.name)], "service": ports, "interface": [],
+                          "link": [], "subinterface": [], "port": [("interface", "sub1")],
+                          "topservice": sorted(("interface", i.name) for i in els["topservice"].interface_list), "serviceport": []}
+            else:
+                expect = {"switch": [("service", els["switchservice"].name)], "switchport": [], "facport": [],
+                          "switchservice": sorted(("interface", i.name) for i in els["switch"].interface_list),
+                          "facility": [("service", els["facservice"].name)],
+                          "facservice": sorted(("interface", i.name) for i in els["facility"].interface_list), "composite": []}
+            for pos, want in sorted(expect.items()):
+                el = els.get(pos) or els.aux.get(pos)
+                if el is None:
+                    continue
+                kind = POS_KIND.get(pos, "interface")
+                hs = [("returned", el)] + (other_handles(topo, els, pos, want=2) if pos in els else [])
+                for how, h in hs:
+                    res.evaluations += 1
+                    res.count("get_sliver:" + pos)
+                    c = {"slivers": pos}
+                    try:
+                        sl = h.get_sliver()
+                    except Exception as e:
+                        res.violation("C02:get_sliver:%s@%s:raises:%s" % (ELEM_CLASS[kind], pos, err_kind(e)),
+                                      "get_sliver() of the element at position %s raises" % pos, c)
+                        continue
+                    got = kid_names(sl)
+                    if got != want:
+                        missing = sorted({k for k, _ in set(want) - set(got)})
+                        extra = sorted({k for k, _ in set(got) - set(want)})
+                        res.violation("C02:get_sliver:%s@%s:children:missing=%s:extra=%s" % (ELEM_CLASS[kind], pos, ",".join(missing), ",".join(extra)),
+                                      "get_sliver() of the %s at position %s (handle: %s) lists other children than the element has" % (
+                                          type(h).__name__, pos, how), c, expected=want, observed=got)
+                    for k in settable(kind):
+                        a, b = elem_get(h, k), ["ok", sl.get_property(k)]
+                        if canon(rd_canon(a)) != canon(rd_canon(b)):
+                            res.violation("C02:get_sliver:%s@%s:%s:differs" % (ELEM_CLASS[kind], pos, k),
+                                          "get_sliver().%s of the element at position %s is not what get_property answers" % (k, pos), c,
+                                          expected=rd_canon(a), observed=rd_canon(b))
+        finally:
+            topo.graph_model.delete_graph()
 
 
 def check_elem_confirmed(case, res):
@@ -1656,6 +2111,8 @@ def oracle(ctx, res, n=None):
         res.count("kind:" + t["k"])
         res.count("depth:%d" % d)
         check_tree(t, res)
+        if t["c"] or p >= 3 or res.evaluations % 4 == 0:
+            check_inputs(t, res)
     for case in load_corpus("elem") + gen_elem_cases(ctx, ctx.sub_rng("oracle-elem"), ctx.scale(1, 8)):
         trs = case.get("elemb") or case["elem"]
         res.evaluations += len(trs)
@@ -1665,6 +2122,7 @@ def oracle(ctx, res, n=None):
         check_elem_confirmed(case, res)
     POOL.release()
     check_side_routes(res)
+    check_elem_slivers(res)
     check_ctor_routes(ctx, ctx.sub_rng("oracle-ctor"), res)
     res.sample({"tree": cases[len(cases) // 2], "paths": ["props", "dict", "json", "graph"]})
 
@@ -1691,10 +2149,14 @@ def replay(ctx, payload):
     from core import Result
     r = Result()
     c = payload["case"]
-    if "tree" in c:
+    if "tree" in c and c.get("inputs"):
+        check_inputs(c["tree"], r)
+    elif "tree" in c:
         check_tree(c["tree"], r, paths=tuple(c.get("paths") or ALL_PATHS))
     elif "side" in c:
         check_side_routes(r)
+    elif "slivers" in c:
+        check_elem_slivers(r)
     elif "ctor" in c:
         check_ctor_routes(ctx, ctx.sub_rng("oracle-ctor"), r)
     else:
